@@ -16,15 +16,13 @@ var c13Weights = core.OpWeights{
 	core.OpDelAbsent: 2, core.OpDelWrong: 2, core.OpClone: 3, core.OpPersist: 24, core.OpReload: 8, core.OpReloadJSON: 2, core.OpDrain: 1,
 }
 
-const opPersistFail = "persistfail" // MakeRoot while the N-th Store call of that flush fails
-
 func genC13(t *rapid.T, tier string) HistCase {
 	c := genC13base(t, tier)
 	// sprinkle failing persists
 	n := rapid.IntRange(0, 3).Draw(t, "nfailingpersists")
 	for i := 0; i < n; i++ {
 		pos := rapid.IntRange(0, len(c.Prog)).Draw(t, "failpos")
-		op := core.Op{Kind: opPersistFail, Slot: rapid.IntRange(0, 1).Draw(t, "failslot"), N: rapid.IntRange(1, 4).Draw(t, "failnth")}
+		op := core.Op{Kind: core.OpPersistFail, Slot: rapid.IntRange(0, 1).Draw(t, "failslot"), N: rapid.IntRange(1, 4).Draw(t, "failnth")}
 		c.Prog = append(c.Prog[:pos], append([]core.Op{op}, c.Prog[pos:]...)...)
 	}
 	return c
@@ -98,7 +96,6 @@ func runC13(c HistCase, o *run.Obs) error {
 	}
 	var pend pending
 	nontrivial := 0
-	failedPersists := 0
 	cleanButUnmodifiedDirty := 0
 	var ww *core.World
 	m, err := runHist(c, o, 2, func(w *core.World, m *core.Machine) {
@@ -114,28 +111,6 @@ func runC13(c HistCase, o *run.Obs) error {
 			}
 			pend.v0ranges, _ = nodeRanges(w, pend.baseRoot.Link)
 			core.Safely("IsDirty", func() error { pend.dirtyFlag = t.M.IsDirty(); return nil })
-		}
-		m.Custom = func(op core.Op) (bool, error) {
-			if op.Kind != opPersistFail {
-				return false, nil
-			}
-			si := op.Slot % len(m.Slots)
-			if m.Slots[si] == nil {
-				si = 0
-			}
-			t := m.Slots[si]
-			m.BeforePersist(si, t)
-			_, base := w.Store.Counters()
-			w.Store.FailStore = func(i int, name string) bool { return i == base+op.N }
-			sr, err := w.Persist(t)
-			w.Store.FailStore = nil
-			if err != nil {
-				failedPersists++
-				return true, nil // the tree must now still be dirty unless it equals its base version (checked after the step)
-			}
-			m.Roots = append(m.Roots, sr)
-			m.Ev.Persists++
-			return true, m.OnPersist(si, t, sr)
 		}
 		m.OnPersist = func(si int, t *core.Tree, sr *core.SavedRoot) error {
 			writes := w.Store.StoresSince(pend.mark)
@@ -217,7 +192,7 @@ func runC13(c HistCase, o *run.Obs) error {
 	labelCfg(o, c.Cfg)
 	o.Labelf("maxheight=%d", m.Ev.MaxHeight)
 	o.Labelf("persists=%d", min(m.Ev.Persists, 10))
-	if failedPersists > 0 {
+	if m.Ev.FailedPersists > 0 {
 		o.Label("failed-persist-exercised")
 	}
 	if cleanButUnmodifiedDirty > 0 {
